@@ -123,9 +123,10 @@ def gen_history(rng, n_ops):
         k = rng.random()
         if k < 0.35:
             secret = rng.choice([b"pw", b"", b"\xff\xfe\x80", "päss".encode(), b"x" * 73])
+            kind = "calc"
             if b"\xff" in secret and o == "bcrypt":
-                secret = b"pw2"     # bcrypt's os_crypt path refuses non-UTF-8 (recorded finding), keep histories on defined ground
-            ops.append(["calc", cls, secret.hex()])
+                kind = "calcnu"     # bcrypt's os_crypt path refuses non-UTF-8 (recorded finding): the worker swaps the secret only when that backend is active
+            ops.append([kind, cls, secret.hex()])
             mops.append(f"calc:{o}:{BC_CLASSES.get(cls, 0)}")
         elif k < 0.65:
             name = rng.choice(backends + ["any", "default", "nope", ""])
@@ -152,7 +153,7 @@ def canon_outputs(ops, res):
     """map the worker's raw answers to the model's vocabulary"""
     out = []
     for op, r in zip(ops, res):
-        if op[0] != "calc" or not r.startswith("ok "):
+        if op[0] not in ("calc", "calcnu") or not r.startswith("ok "):
             out.append(r)
             continue
         _, backend, hs = r.split(" ", 2)
@@ -160,6 +161,8 @@ def canon_outputs(ops, res):
         secret = bytes.fromhex(op[2])
         if cls in BC_CLASSES:
             k = bcrypt_refs(cls, secret).get(hs[-31:])
+            if k is None and op[0] == "calcnu":
+                k = bcrypt_refs(cls, b"pw2").get(hs[-31:])
             out.append(f"ok {backend} {k if k is not None else 'WRONG-DIGEST'}")
         else:
             ref = many_ref(cls, secret)
@@ -194,7 +197,7 @@ def correspond(ctx):
     return merge(s_hist, o_pair)
 
 
-PWS = [b"", b"a", b"pw", b"\xff\xfe\x80abc", "pässø".encode(), b"x" * 8, b"x" * 9, b"y" * 55, b"y" * 56, b"z" * 72, b"z" * 73, b"q" * 200, bytes(range(1, 256))]
+PWS = [b"", b"a", b"pw", b"\xff\xfe\x80abc", "pässø".encode(), "pässwörd".encode(), "日本語 pass".encode(), "🔑key".encode(), b"x" * 8, b"x" * 9, b"y" * 55, b"y" * 56, b"z" * 72, b"z" * 73, b"q" * 200, bytes(range(1, 256))]
 
 
 def pair_oracle(ctx, o_pair, first_only=False):
@@ -210,7 +213,7 @@ def pair_oracle(ctx, o_pair, first_only=False):
         "sha512_crypt": lambda: dict(salt="".join(rng.choice("abcXYZ./09") for _ in range(rng.choice([1, 8, 16]))), rounds=rng.choice([1000, 1001, 1041, 1042, 1043, 5000])),
         "des_crypt": lambda: dict(salt="".join(rng.choice("abcXYZ./09") for _ in range(2))),
         "bsdi_crypt": lambda: dict(salt="".join(rng.choice("abcXYZ./09") for _ in range(4)), rounds=rng.choice([1, 3, 7, 725, 4095])),
-        "bcrypt": lambda: dict(salt="".join(rng.choice("abcXYZ./09") for _ in range(21)) + rng.choice(".Oeu"), rounds=rng.choice([4, 5]), ident=rng.choice(["2a", "2b", "2y"])),
+        "bcrypt": lambda: dict(salt="".join(rng.choice("abcXYZ./09") for _ in range(21)) + rng.choice(".Oeu"), rounds=rng.choice([4, 5]), ident=rng.choice(["2", "2a", "2b", "2y"])),
         "bcrypt_sha256": lambda: dict(salt="".join(rng.choice("abcXYZ./09") for _ in range(21)) + rng.choice(".Oeu"), rounds=4),
         "scrypt": lambda: dict(salt=bytes(rng.randrange(256) for _ in range(rng.choice([0, 1, 16]))), rounds=rng.choice([1, 2, 5]), block_size=rng.choice([1, 2, 8]), parallelism=rng.choice([1, 2])),
     }
@@ -220,9 +223,15 @@ def pair_oracle(ctx, o_pair, first_only=False):
         orig = h.get_backend()
         try:
             slow = name in ("bcrypt", "bcrypt_sha256", "scrypt")      # pure-Python Blowfish / Salsa back ends
-            for _ in range((1 if slow else 3) if not ctx.thorough else 25):
+            reps = (1 if slow else 3) if not ctx.thorough else 25
+            for rep in range(reps + (1 if name == "bcrypt" else 0)):
                 kw = mk()
-                for pw in (PWS if not slow or ctx.thorough else PWS[:1] + PWS[3:5] + PWS[8:11] + PWS[12:]):
+                quick_pws = [b"", b"\xff\xfe\x80abc", "pässø".encode(), b"y" * 56, b"z" * 72, b"z" * 73, bytes(range(1, 256))]
+                if name == "bcrypt" and rep == reps:
+                    # the legacy "$2$" ident repeats the password up to 72 bytes before hashing: multi-byte text must survive that on every backend
+                    kw["ident"] = "2"
+                    quick_pws = ["pässwörd".encode(), "日本語 pass".encode(), "🔑key".encode(), b"ascii", "é".encode() * 5]
+                for pw in (PWS if (not slow or ctx.thorough) and not (name == "bcrypt" and rep == reps) else quick_pws):
                     if name in ("bcrypt", "bcrypt_sha256") and "os_crypt" in avail:
                         try:
                             pw.decode("utf-8")
@@ -241,6 +250,19 @@ def pair_oracle(ctx, o_pair, first_only=False):
                         except Exception as e:  # noqa: BLE001
                             outs[b] = "err " + errname(e) + ": " + str(e)[:80]
                     ok = len(set(outs.values())) == 1 and not next(iter(outs.values())).startswith("err ")
+                    # availability queries in between must not change what the selected backend computes
+                    if ok and rng.random() < 0.5:
+                        for b in avail:
+                            h.set_backend(b)
+                            for b2 in h.backends:
+                                h.has_backend(b2)
+                            try:
+                                again = h.using(**kw).hash(pw) if not (b == "os_crypt" and not utf8) else outs.get(b, next(iter(outs.values())))
+                            except Exception as e:  # noqa: BLE001
+                                again = "err " + errname(e)
+                            if h.get_backend() != b or again != next(iter(outs.values())):
+                                ok = False
+                                outs = dict(outs, **{"after-has_backend:" + b: again, "get_backend": h.get_backend()})
                     # and every backend verifies every other backend's string
                     if ok:
                         for b in avail:
